@@ -409,7 +409,8 @@ def one_run(ctx, sc, idx, keep_lf=False):
     if any(sc.get(k) for k in VARIANT_KEYS):
         status, events, conv, exc, rc_early = run_variant(sc, binf, d, info)
     elif sc.get("reuse_first_w"):
-        status, events, conv, exc = n2.convert_reuse(binf, sc["reuse_first_w"], sc["w"], **bounds(sc, d))
+        status, events, conv, exc = n2.convert_reuse(binf, sc["reuse_first_w"], sc["w"], first_nsamples=sc.get("reuse_first_ns"),
+                                                     **bounds(sc, d))
     else:
         status, events, conv, exc = n2.convert(binf, sc["w"], **bounds(sc, d))
     if status == "skipped":     # the scenario needs a private entry point that this code does not have (reported as drift)
@@ -476,7 +477,8 @@ def scenarios(ctx):
         big.append({"n": 8, "nshank": 2 + j % 3, "map": maps[1 + j % 6], "gain": list(n2.GAINSETS[j % 4]), "w": [30000, 23988][j % 2], "ns": ns,
                     "seed": seed + k})
     # the same converter object re-parameterised and re-run with overwrite (process(overwrite) is a method argument)
-    reuse = [dict(s, reuse_first_w=[2400, 3612, 1200][i % 3], seed=s["seed"] + 50000) for i, s in enumerate(scs[:: max(1, len(scs) // 6)][:6])]
+    reuse = [dict(s, reuse_first_w=[2400, 3612, 1200][i % 3], seed=s["seed"] + 50000, **({"reuse_first_ns": (s["ns"] * 5 // 8) | 1} if i % 2 else {}))
+             for i, s in enumerate(scs[:: max(1, len(scs) // 6)][:6])]
     return scs + big + reuse + variants(ctx, seed + 70000)
 
 
